@@ -288,6 +288,12 @@ func runInt[T typ.Integer](c Wide, wt *wtype) pbt.Outcome {
 	if ^T(0) < 0 != wt.signed {
 		return pbt.Fail("harness error: signedness table wrong for %s", c.Type)
 	}
+	if n > classifyMax {
+		switch c.Fn {
+		case "Min", "Max", "Sum", "Product":
+			return runIntLong[T](c, wt, out)
+		}
+	}
 	for i, b := range c.Bits {
 		b &= wt.mask()
 		args[i] = T(b)
@@ -437,6 +443,89 @@ func runInt[T typ.Integer](c Wide, wt *wtype) pbt.Outcome {
 			if got := typ.DigitsSign10(args[0]); got != len(s) {
 				return bad(got, len(s), "decimal digits of |v| plus one for the sign of a negative v")
 			}
+		}
+	}
+	return out
+}
+
+// runIntLong judges Min/Max/Sum/Product over a long integer argument list with
+// machine arithmetic instead of math/big: sums and products are accumulated
+// modulo 2^64 and reduced modulo 2^bits (exact, because 2^bits divides 2^64);
+// the order of the type is the order of the bit patterns after flipping the
+// sign bit of signed types.
+func runIntLong[T typ.Integer](c Wide, wt *wtype, out pbt.Outcome) pbt.Outcome {
+	m := wt.mask()
+	key := func(b uint64) uint64 { // order-preserving map of a bit pattern into uint64
+		if wt.signed {
+			return b ^ wt.minBits()
+		}
+		return b
+	}
+	text := func(b uint64) string { return wt.bigOf(b).String() }
+	args := make([]T, len(c.Bits))
+	shown := make([]string, 0, 12)
+	for i, b := range c.Bits {
+		b &= m
+		args[i] = T(b)
+		if uint64(args[i])&m != b {
+			return pbt.Fail("harness error: %s(%#x) does not convert back to the same bit pattern", c.Type, b)
+		}
+		if i < 6 || i >= len(c.Bits)-4 {
+			if i == len(c.Bits)-4 {
+				shown = append(shown, "...")
+			}
+			shown = append(shown, text(b))
+		}
+	}
+	call := fmt.Sprintf("%s[%s](%d arguments: %s)", c.Fn, c.Type, len(args), strings.Join(shown, " "))
+	out.Labels = append(out.Labels, "oracle:machine-arithmetic")
+	switch c.Fn {
+	case "Min", "Max":
+		var got T
+		if c.Fn == "Min" {
+			got = typ.Min(args...)
+		} else {
+			got = typ.Max(args...)
+		}
+		g := uint64(got) & m
+		isArg := false
+		for i, b := range c.Bits {
+			b &= m
+			if b == g {
+				isArg = true
+			}
+			if c.Fn == "Min" && key(g) > key(b) {
+				return pbt.Fail("typ.%s = %s, want <= %s (argument #%d; the result must be <= every argument)", call, text(g), text(b), i)
+			}
+			if c.Fn == "Max" && key(g) < key(b) {
+				return pbt.Fail("typ.%s = %s, want >= %s (argument #%d; the result must be >= every argument)", call, text(g), text(b), i)
+			}
+		}
+		if !isArg {
+			return pbt.Fail("typ.%s = %s, want one of the arguments", call, text(g))
+		}
+	case "Sum", "Product":
+		var got T
+		var acc uint64
+		if c.Fn == "Sum" {
+			for _, b := range c.Bits {
+				acc += b & m
+			}
+			got = typ.Sum(args...)
+		} else {
+			acc = 1
+			for _, b := range c.Bits {
+				if wt.signed && (b&m)>>(wt.bits-1) == 1 {
+					b |= ^m // sign-extend (immaterial modulo 2^bits, kept for clarity)
+				} else {
+					b &= m
+				}
+				acc *= b
+			}
+			got = typ.Product(args...)
+		}
+		if g := uint64(got) & m; g != acc&m {
+			return pbt.Fail("typ.%s = %s, want %s (left-to-right wrapping arithmetic modulo 2^%d)", call, text(g), text(acc&m), wt.bits)
 		}
 	}
 	return out
